@@ -136,6 +136,10 @@ type Node struct {
 
 	Ticks int // own tick count (whole life)
 
+	// SlowAppend/SlowApply: the node's storage threads are stalled (slow
+	// disk / slow state machine); Service leaves their queues alone.
+	SlowAppend, SlowApply bool
+
 	// LostCommitInc is the incarnation whose crash lost an un-synced commit.
 	LostCommitInc int
 
@@ -388,6 +392,7 @@ func (s *Sim) touch(n *Node, c *Cause, f func()) bool {
 
 func (s *Sim) crashInternal(n *Node) {
 	n.Up = false
+	n.SlowAppend, n.SlowApply = false, false
 	n.RN = nil
 	n.Phase, n.Sent, n.Applied = PhaseIdle, false, false
 	n.Rd = raft.Ready{}
